@@ -418,6 +418,7 @@ def fcfs_fact(chk, n_levels: int = 30) -> Optional[str]:
         chk.violation("region-triple" if key == "regions" else "fcfs-first-fit", site, msg, K(fi, f"fcfs-{key}"), expected=want, found=got)
     if not problems:
         chk.ok("fcfs-first-fit", fi.where, f"evaluated on {n_cases} stem lists (every order type of <= 3 arcs in every list order, of 4 arcs in 5' order): levels are first-fit over the earlier crossing stems, regions describe the stems, the fill's value is returned")
+    if "regions" not in problems:
         chk.ok("region-triple", fi.where, "the regions handed to the fill are (first 5' index, partner, length) of every stem (evaluated)")
     # number of levels offered = size of the bracket table
     try:
@@ -1078,8 +1079,6 @@ def fault_fact(chk) -> Optional[str]:
                     report("readback-after-optimal", f"status-readback", conv.where, f"with solver status '{sname}' variable values are read from the unsolved model and convert_to_dot_bracket returns the notation with levels {rec.levels_of(val)} for {what} (crossing stems share a bracket type) instead of the FCFS notation: only `status == LpStatusOptimal` may reach the read-back", "self.fcfs", repr(val))
                 elif not rec.is_fcfs(val):
                     report("fallback-is-fcfs", "status-result", conv.where, f"with solver status '{sname}' convert_to_dot_bracket returns {'the notation with levels ' + str(rec.levels_of(val)) if rec.levels_of(val) is not None else repr(val)} for {what}, not the FCFS notation", "self.fcfs", repr(val))
-                elif reads:
-                    report("readback-after-optimal", "status-reads", conv.where, f"with solver status '{sname}' variable values of the unsolved model are read (the result is still FCFS)")
             # (d) optimal
             w = lp.World(_by_name_solution([1, 0]))
             kind, val, rec = run(conv, regs, w, lambda it, r: it.call_member(r, "convert_to_dot_bracket", w.default_solver))
@@ -1390,11 +1389,17 @@ def model_fact(chk) -> Optional[str]:
             eqs = [c for c in prob.constraints if c.sense == "=="]
             ineqs = [c for c in prob.constraints if c.sense != "=="]
             groups = [sorted(v.name for v in c.expr.terms) for c in eqs]
+            split = None
             for g in groups:
                 known = {mu[nm][0] for nm in g if nm in mu}
                 unk = [nm for nm in g if nm not in mu]
                 if len(known) == 1 and len(unk) == 1 and unk[0] in silent:
                     mu[unk[0]] = (next(iter(known)), 0)
+                elif len(known) > 1 and split is None:
+                    split = g
+            if split is not None:
+                report("milp-readback", "readback-roles", f"for {what} the variables {split} are bound by one exactly-one-level constraint (the model treats them as the levels of ONE stem) but the read-back takes them for stems {sorted({mu[nm][0] for nm in split if nm in mu})} (" + ", ".join(f"{nm} -> stem {mu[nm][0]} level {mu[nm][1]}" for nm in split if nm in mu) + "): the (stem, level) fields of the variable name are not parsed in the order they were written", found={nm: list(mu[nm]) for nm in split if nm in mu})
+                continue
             unmapped = [nm for nm in names if nm not in mu]
             if not eqs:
                 report("milp-one-level", "one-level-missing", f"the model for {what} has no `sum of a stem's variables == 1` constraint: a stem may get no level or several", found=[str(c) for c in prob.constraints][:6])
@@ -1564,8 +1569,8 @@ def unsolved_readback_fact(chk, rule: str = "milp-readback-optimal") -> Optional
             recv = receiver(it, KNOTTED, rec, fcfs=True)
             kind, val = attempt(lambda: it.call_member(recv, "convert_to_dot_bracket", w.default_solver))
             reads = _value_reads(w)
-            if kind == "value" and reads and problem is None:
-                problem = (conv.where, f"with solver status '{sname}' variable values are read from the unsolved model" + (f" and the notation with levels {rec.levels_of(val)} is returned for the crossing stems {show(KNOTTED)}" if not rec.is_fcfs(val) else "") + ": only `status == LpStatusOptimal` may reach the read-back")
+            if kind == "value" and reads and not rec.is_fcfs(val) and problem is None:
+                problem = (conv.where, f"with solver status '{sname}' variable values are read from the unsolved model and the notation with levels {rec.levels_of(val)} is returned for the crossing stems {show(KNOTTED)}: only `status == LpStatusOptimal` may reach the read-back")
             elif kind == "value" and not rec.is_fcfs(val) and problem is None:
                 problem = (conv.where, f"with solver status '{sname}' convert_to_dot_bracket returns {val!r} instead of the FCFS notation")
             elif kind != "value" and problem is None:
@@ -1595,4 +1600,69 @@ def uses_fill_fact(chk) -> Optional[str]:
         chk.ok("encoder-result-fact", fi.where, "evaluated: after an optimal solve the result is the notation rendered by the verified fill")
     else:
         chk.violation("encoder-result-fact", site_of(fi, getattr(val, "lineno", None)) if kind != "value" else fi.where, f"after an optimal solve convert_to_dot_bracket {'returns ' + repr(val)[:80] if kind == 'value' else ('raises ' + str(val) if kind == 'raise' else 'does not finish')} for the crossing stems {show(KNOTTED)}: not a notation built by __make_dot_bracket", K(fi, "uses-fill"))
+    return None
+
+
+def fill_fact(chk) -> Optional[str]:
+    """BpSeq.__make_dot_bracket(regions, levels) on every level 0..29 and on nested / multi-pair stems, levels given as a
+    list or a dict: the notation has one character per residue, stem t-th pair is written at (start-1+t, partner-1-t) with the
+    bracket pair of its level, and the library's own decoder reads exactly these pairs back."""
+    repo = chk.repo
+    fi = repo.func(MOD, f"{CLS}.__make_dot_bracket")
+    chk.note_function(fi)
+    it = Interp(repo, MOD)
+    problems: Dict[str, Tuple[str, str, Any, Any]] = {}
+    length = 34
+    seq = ("ACGUacgu" * 5)[:length]
+    cases: List[Tuple[List[Region], Any]] = [([], [])]
+    for k in range(len(REF_OPEN)):
+        cases.append(([(3, 20, 2)], [k]))
+    cases.append(([(1, 30, 3), (5, 12, 1), (8, 25, 2)], [0, 3, 1]))
+    cases.append(([(1, 30, 3), (5, 12, 1), (8, 25, 2)], {0: 2, 1: 0, 2: 29}))
+    cases.append(([(2, 34, 1), (10, 15, 3)], {1: 1, 0: 0}))
+    try:
+        for regs, levels in cases:
+            recv = it.instance(CLS, attrs={"entries": [E(i + 1, c, 0) for i, c in enumerate(seq)]}, over={"sequence": seq})
+            lv = [levels[i] for i in range(len(regs))]
+            kind, val = attempt(lambda: it.call_member(recv, "__make_dot_bracket", list(regs), levels if isinstance(levels, dict) else list(levels)))
+            want = render(length, regs, lv)
+            desc = f"regions {regs} with levels {lv}"
+            if kind != "value":
+                problems.setdefault("raise", (site_of(fi, getattr(val, "lineno", None)), f"BpSeq.__make_dot_bracket {'raises ' + str(val) if kind == 'raise' else 'does not finish'} for {desc}", want, None))
+                continue
+            key = db_key(val)
+            if key is None:
+                problems.setdefault("result", (fi.where, f"BpSeq.__make_dot_bracket returns {val!r}, not a DotBracket built from self.sequence and the written structure", None, None))
+                continue
+            if key[0] != seq:
+                problems.setdefault("result", (fi.where, f"the notation does not carry self.sequence ({key[0]!r})", seq, key[0]))
+            got = key[1]
+            if not isinstance(got, str) or len(got) != length:
+                problems.setdefault("width", (fi.where, f"the notation written for {desc} has {len(got) if isinstance(got, str) else '?'} characters for a sequence of {length}: one character per residue is required", length, len(got) if isinstance(got, str) else None))
+                continue
+            if got != want:
+                i = next(i for i in range(length) if got[i] != want[i])
+                stem = next((r for r in regs if r[0] - 1 <= i < r[0] - 1 + r[2] or r[1] - r[2] <= i <= r[1] - 1), None)
+                if want[i] != "." and got[i] != "." :
+                    why = f"position {i + 1} carries `{got[i]}`, the bracket of the stem's level is `{want[i]}` (encoder table and the statement's 30 bracket types disagree, or the wrong level / side is used)"
+                    key_ = "alphabet"
+                else:
+                    why = f"position {i + 1} is `{got[i]}` but should be `{want[i]}`: the t-th pair of a stem (start, partner, n) belongs at start-1+t and partner-1-t for t in [0, n)"
+                    key_ = "stores"
+                problems.setdefault(key_, (fi.where, f"BpSeq.__make_dot_bracket for {desc}: {why}", want, got))
+                continue
+            pairs = val._attrs.get("pairs") if isinstance(val, Instance) else None
+            want_pairs = sorted((s - 1 + t, e - 1 - t) for s, e, n in regs for t in range(n))
+            if pairs is not None and sorted(tuple(p) for p in pairs) != want_pairs:
+                problems.setdefault("roundtrip", (fi.where, f"the library's decoder reads the notation `{got}` written for {desc} back as {sorted(tuple(p) for p in pairs)}, not as the stems' pairs", want_pairs, sorted(tuple(p) for p in pairs)))
+    except NotEvaluable as ex:
+        return str(ex)
+    rules = {"raise": "fill-stores", "result": "fill-result", "width": "fill-width", "alphabet": "alphabet-agree", "stores": "fill-stores", "roundtrip": "alphabet-agree"}
+    for key, (site, msg, want, got) in problems.items():
+        chk.violation(rules[key], site, msg, K(fi, f"fill-{key}"), expected=want, found=got)
+    if not problems:
+        chk.ok("fill-stores", fi.where, f"evaluated on {len(cases)} (regions, levels) inputs: pair t of a stem is written at start-1+t / partner-1-t with the bracket pair of the stem's level, for every level 0..29; levels given as list or dict")
+        chk.ok("fill-width", fi.where, "the notation has one character per residue of self.sequence (evaluated)")
+        chk.ok("fill-result", fi.where, "the result is a DotBracket of self.sequence and the written structure (evaluated)")
+        chk.ok("alphabet-agree", fi.where, "level k is written with the k-th of the statement's 30 bracket types and the library's own decoder reads every such notation back as the stems' pairs (evaluated)")
     return None
